@@ -18,7 +18,8 @@ RULE = ("feature tables with 2..3 string columns over alphabets containing ',', 
         "spaces and numeric-looking values ('1','1.0','01'), seeded with tuples built so that naive joins collide ('a,b'+'c' vs "
         "'a'+'b,c'; 'a\\\\'+'b' vs 'a'+'\\\\b'); given as DataFrame / 2-D ndarray / list of lists. moments: the partition induced by "
         "DemographicParity (sensitive and control columns), EqualizedOdds and BoundedGroupLoss is recovered through the public "
-        "signed_weights/index and compared with the tuple partition and with MetricFrame's (recording metric). thresholder: "
+        "signed_weights/index and compared with the tuple partition and with MetricFrame's (recording metric); GridSearch / "
+        "ExponentiatedGradient fitted end to end with the table must record the constraint values of the true tuple groups. thresholder: "
         "interpolation_dict has one rule per tuple, the C04 parity oracle holds on the TRUE tuple groups, and _pmf_predict on "
         "permuted rows, sub-tables (single groups, tables lacking some values) and held-out rows gives every row the "
         "probability its (score, tuple) got in the full training table. distinct = distinct (#columns, #tuples, container, "
@@ -146,6 +147,31 @@ def run_moments(ctx, rng, ncols, tuples, specials):
     n_pairs = len({(y[i], tuple(rows[i])) for i in range(n)})
     ctx.check(len([e for e in eo.index if e[0] == "+"]) == n_pairs, "equalized_odds_entries_differ_from_label_tuple_pairs",
               got=len([e for e in eo.index if e[0] == "+"]), expected=n_pairs, wit=wit)
+    # --- end to end: GridSearch / ExponentiatedGradient fitted with the multi-column table; the recorded constraint values of
+    #     every trained predictor must be those of the TRUE tuple groups (compared as multisets: group labels are merged strings)
+    if rng.random() < 0.5 and len(set(y)) == 2 and n >= 6:
+        from vf.monitors.learners import ExactLearner
+        from vf.refs import moments as RM
+
+        Xf = np.asarray([[i % 3] for i in range(n)], dtype=float)
+        tg = [tuple(r) for r in rows]
+        if rng.random() < 0.5:
+            est = red.GridSearch(ExactLearner("cells"), red.DemographicParity(difference_bound=0.05), grid_size=4, grid_limit=2.0)
+            est.fit(Xf, y, sensitive_features=table)
+            cols_ = [(est.gammas_[c], est.predictors_[i]) for i, c in enumerate(est.gammas_.columns)]
+        else:
+            est = red.ExponentiatedGradient(ExactLearner("cells"), red.DemographicParity(difference_bound=0.05), eps=0.1, max_iter=4, nu=1e-4)
+            est.fit(Xf, y, sensitive_features=table)
+            lag_g = [est.constraints.gamma(lambda A, p_=p_: p_.predict(A)) for p_ in est.predictors_]
+            cols_ = list(zip(lag_g, list(est.predictors_)))
+        for gcol, pr in cols_:
+            h = np.asarray(pr.predict(Xf), float)
+            ref = RM.gamma("DemographicParity", y, tg, h, 1.0, None)
+            exp_vals = sorted(round(v, 10) for (sgn, _, _), v in ref.items() if sgn == "+")
+            got_vals = sorted(round(float(v), 10) for e, v in gcol.items() if e[0] == "+")
+            ctx.ev("moment_partitions_compared")
+            ctx.check(got_vals == exp_vals, "reduction_constraint_values_are_not_those_of_the_tuple_groups", estimator=type(est).__name__, got=got_vals,
+                      expected=exp_vals, wit=wit)
     # --- MetricFrame's partition into non-empty intersectional groups
     rec = RecordingMetric("rec")
     mf = MetricFrame(metrics=rec, y_true=list(range(n)), y_pred=list(range(n)), sensitive_features=pd.DataFrame(rows, columns=names))
